@@ -138,7 +138,7 @@ pub fn dispatch(f: &[&str]) -> String {
         "cser" => {
             let mut a = Allocator::new();
             let v = val::parse(&mut a, f[1]).unwrap();
-            match clvmr::serde::node_to_bytes(&a, v) {
+            match clvmr::serde::node_to_bytes_limit(&a, v, 400_000_000) {
                 Ok(b) => format!("OK {}", hex::encode(b)),
                 Err(e) => format!("ERR {:?}", e),
             }
